@@ -407,12 +407,18 @@ def check_X(case, acc):
     except Exception as e:
         acc.count('X-wellformed-refused:%s' % form)      # reported by product M
         return
-    for kind, extra, what, O, S, omd, smd, outside in malformations(N, M):
+    for idx, (kind, extra, what, O, S, omd, smd, outside) in enumerate(malformations(N, M)):
+        if case.get('only') is not None and idx != case['only']:
+            continue                     # replay of one recorded malformation
         acc.trans += 1
         acc.evals += 1
         acc.count('malformation:' + kind)
         data = builder(A)[0]             # fresh input object every time
         idcount = kind.startswith('ids-')
+
+        def bad(sig, detail, idx=idx):   # the recorded case names the one malformation
+            acc.violation(sig, detail, dict(case, only=idx, malformation=kind + extra))
+
         fsig = ':' + family(form) if idcount else ''
         try:
             t = Table(data, O, S, omd, smd, **kw)
@@ -440,9 +446,9 @@ def check_X(case, acc):
                 acc.count('coordinate-form-accepted-without-outside-coordinate:' + kind)
             continue
         bad('malformed-accepted:%s%s%s' % (kind, extra, fsig),
-            '%s input of %r with %s (ids %r / %r) was accepted: shape %r, metadata %r / %r'
-            % (form, A.tolist(), what, O, S, tuple(t.shape), t.metadata(axis='observation'),
-               t.metadata(axis='sample')))
+            '%s (ids %r / %r) was accepted: shape %r, metadata %r / %r; matrix %r given as %s%s'
+            % (what, O, S, tuple(t.shape), t.metadata(axis='observation'), t.metadata(axis='sample'),
+               A.tolist(), form, '' if idcount else ' (this clause does not depend on the input form)'))
     P.state(acc, 'X', shape, case['mask'], form)
 
 
